@@ -87,6 +87,8 @@ func (m *Model) Infer(t *syntax.Transaction) {
 		if credit == m.account {
 			if a, ok := m.inferAccount(t, &t.Bookings[i], debit); ok {
 				t.Bookings[i].Credit = a
+				// the debit account must differ from the account just inferred
+				credit = a.Extract()
 			}
 		}
 		if debit == m.account {
